@@ -164,6 +164,159 @@ Proof.
 Qed.
 
 (* ------------------------------------------------------------------------- *)
+(* meaning of the filter's conjuncts                                          *)
+(* ------------------------------------------------------------------------- *)
+
+Lemma mem_In : forall s l, mem s l = true <-> In s l.
+Proof.
+  intros s l. unfold mem. rewrite existsb_exists. split.
+  - intros [x [Hx He]]. apply String.eqb_eq in He. subst. exact Hx.
+  - intros H. exists s. split; [exact H | apply String.eqb_refl].
+Qed.
+
+Lemma filter_matches_meaning : forall f r, filter_matches f r = true ->
+  (forall m, f_mindist f = Some m -> m <= r_dist r) /\ (forall m, f_maxdist f = Some m -> r_dist r <= m)
+  /\ (forall m, f_minseat f = Some m -> m <= r_seats r) /\ (forall m, f_maxseat f = Some m -> r_seats r <= m)
+  /\ (forall l, f_service f = Some l -> l <> [] -> In (r_service r) l)
+  /\ (forall l, f_actype f = Some l -> l <> [] -> In (r_actype r) l)
+  /\ (forall l, f_ap f = Some l -> In (r_oap r) l \/ In (r_dap r) l)
+  /\ (forall l, f_ap f = None -> f_oap f = Some l -> In (r_oap r) l)
+  /\ (forall l, f_ap f = None -> f_dap f = Some l -> In (r_dap r) l)
+  /\ (forall l, f_ctry f = Some l -> In (r_octry r) l \/ In (r_dctry r) l)
+  /\ (forall l, f_ctry f = None -> f_octry f = Some l -> In (r_octry r) l)
+  /\ (forall l, f_ctry f = None -> f_dctry f = Some l -> In (r_dctry r) l)
+  /\ (forall l, f_cont f = Some l -> In (r_ocont r) l \/ In (r_dcont r) l)
+  /\ (forall l, f_cont f = None -> f_ocont f = Some l -> In (r_ocont r) l)
+  /\ (forall l, f_cont f = None -> f_dcont f = Some l -> In (r_dcont r) l)
+  /\ (forall b, f_bb f = Some b -> in_box b (r_olat r) (r_olon r) = true \/ in_box b (r_dlat r) (r_dlon r) = true)
+  /\ (forall b, f_bb f = None -> f_obb f = Some b -> in_box b (r_olat r) (r_olon r) = true)
+  /\ (forall b, f_bb f = None -> f_dbb f = Some b -> in_box b (r_dlat r) (r_dlon r) = true).
+Proof.
+  intros f r H. unfold filter_matches in H. repeat rewrite andb_true_iff in H.
+  destruct H as [[[[[[[[[H1 H2] H3] H4] H5] H6] H7] H8] H9] H10].
+  repeat split.
+  - intros m Hm. rewrite Hm in H1. simpl in H1. lia.
+  - intros m Hm. rewrite Hm in H2. simpl in H2. lia.
+  - intros m Hm. rewrite Hm in H3. simpl in H3. lia.
+  - intros m Hm. rewrite Hm in H4. simpl in H4. lia.
+  - intros l Hl Hne. rewrite Hl in H5. destruct l; [congruence|]. simpl list_cond in H5. apply mem_In. exact H5.
+  - intros l Hl Hne. rewrite Hl in H6. destruct l; [congruence|]. simpl list_cond in H6. apply mem_In. exact H6.
+  - intros l Hl. rewrite Hl in H7. simpl in H7. apply orb_true_iff in H7. rewrite !mem_In in H7. exact H7.
+  - intros l Hn Hl. rewrite Hn, Hl in H7. simpl in H7. apply andb_true_iff in H7. apply mem_In. tauto.
+  - intros l Hn Hl. rewrite Hn, Hl in H7. simpl in H7. apply andb_true_iff in H7. apply mem_In. tauto.
+  - intros l Hl. rewrite Hl in H8. simpl in H8. apply orb_true_iff in H8. rewrite !mem_In in H8. exact H8.
+  - intros l Hn Hl. rewrite Hn, Hl in H8. simpl in H8. apply andb_true_iff in H8. apply mem_In. tauto.
+  - intros l Hn Hl. rewrite Hn, Hl in H8. simpl in H8. apply andb_true_iff in H8. apply mem_In. tauto.
+  - intros l Hl. rewrite Hl in H9. simpl in H9. apply orb_true_iff in H9. rewrite !mem_In in H9. exact H9.
+  - intros l Hn Hl. rewrite Hn, Hl in H9. simpl in H9. apply andb_true_iff in H9. apply mem_In. tauto.
+  - intros l Hn Hl. rewrite Hn, Hl in H9. simpl in H9. apply andb_true_iff in H9. apply mem_In. tauto.
+  - intros b Hb. rewrite Hb in H10. simpl in H10. apply orb_true_iff in H10. exact H10.
+  - intros b Hn Hb. rewrite Hn, Hb in H10. simpl in H10. apply andb_true_iff in H10. tauto.
+  - intros b Hn Hb. rewrite Hn, Hb in H10. simpl in H10. apply andb_true_iff in H10. tauto.
+Qed.
+
+Lemma in_box_spec : forall b lat lon,
+  in_box b lat lon = true <-> (b_minlat b <= lat <= b_maxlat b /\ b_minlon b <= lon <= b_maxlon b).
+Proof. intros b lat lon. unfold in_box. rewrite !andb_true_iff, !Z.leb_le. lia. Qed.
+
+
+(* the filter, specified independently of [filter_matches]: the 18 clauses of the property text *)
+Definition box_holds (b : bbox) (lat lon : Z) : Prop :=
+  b_minlat b <= lat <= b_maxlat b /\ b_minlon b <= lon <= b_maxlon b.
+
+Definition filter_spec (f : fspec) (r : row) : Prop :=
+  (forall m, f_mindist f = Some m -> m <= r_dist r) /\ (forall m, f_maxdist f = Some m -> r_dist r <= m)
+  /\ (forall m, f_minseat f = Some m -> m <= r_seats r) /\ (forall m, f_maxseat f = Some m -> r_seats r <= m)
+  /\ (forall l, f_service f = Some l -> l <> [] -> In (r_service r) l)
+  /\ (forall l, f_actype f = Some l -> l <> [] -> In (r_actype r) l)
+  /\ (forall l, f_ap f = Some l -> In (r_oap r) l \/ In (r_dap r) l)
+  /\ (forall l, f_ap f = None -> f_oap f = Some l -> In (r_oap r) l)
+  /\ (forall l, f_ap f = None -> f_dap f = Some l -> In (r_dap r) l)
+  /\ (forall l, f_ctry f = Some l -> In (r_octry r) l \/ In (r_dctry r) l)
+  /\ (forall l, f_ctry f = None -> f_octry f = Some l -> In (r_octry r) l)
+  /\ (forall l, f_ctry f = None -> f_dctry f = Some l -> In (r_dctry r) l)
+  /\ (forall l, f_cont f = Some l -> In (r_ocont r) l \/ In (r_dcont r) l)
+  /\ (forall l, f_cont f = None -> f_ocont f = Some l -> In (r_ocont r) l)
+  /\ (forall l, f_cont f = None -> f_dcont f = Some l -> In (r_dcont r) l)
+  /\ (forall b, f_bb f = Some b -> box_holds b (r_olat r) (r_olon r) \/ box_holds b (r_dlat r) (r_dlon r))
+  /\ (forall b, f_bb f = None -> f_obb f = Some b -> box_holds b (r_olat r) (r_olon r))
+  /\ (forall b, f_bb f = None -> f_dbb f = Some b -> box_holds b (r_dlat r) (r_dlon r)).
+
+Lemma filter_spec_unfold :
+  forall f r, filter_spec f r <->
+  ((forall m, f_mindist f = Some m -> m <= r_dist r) /\ (forall m, f_maxdist f = Some m -> r_dist r <= m)
+  /\ (forall m, f_minseat f = Some m -> m <= r_seats r) /\ (forall m, f_maxseat f = Some m -> r_seats r <= m)
+  /\ (forall l, f_service f = Some l -> l <> [] -> In (r_service r) l)
+  /\ (forall l, f_actype f = Some l -> l <> [] -> In (r_actype r) l)
+  /\ (forall l, f_ap f = Some l -> In (r_oap r) l \/ In (r_dap r) l)
+  /\ (forall l, f_ap f = None -> f_oap f = Some l -> In (r_oap r) l)
+  /\ (forall l, f_ap f = None -> f_dap f = Some l -> In (r_dap r) l)
+  /\ (forall l, f_ctry f = Some l -> In (r_octry r) l \/ In (r_dctry r) l)
+  /\ (forall l, f_ctry f = None -> f_octry f = Some l -> In (r_octry r) l)
+  /\ (forall l, f_ctry f = None -> f_dctry f = Some l -> In (r_dctry r) l)
+  /\ (forall l, f_cont f = Some l -> In (r_ocont r) l \/ In (r_dcont r) l)
+  /\ (forall l, f_cont f = None -> f_ocont f = Some l -> In (r_ocont r) l)
+  /\ (forall l, f_cont f = None -> f_dcont f = Some l -> In (r_dcont r) l)
+  /\ (forall b, f_bb f = Some b -> box_holds b (r_olat r) (r_olon r) \/ box_holds b (r_dlat r) (r_dlon r))
+  /\ (forall b, f_bb f = None -> f_obb f = Some b -> box_holds b (r_olat r) (r_olon r))
+  /\ (forall b, f_bb f = None -> f_dbb f = Some b -> box_holds b (r_dlat r) (r_dlon r))).
+Proof. intros f r. apply iff_refl. Qed.
+
+Lemma filter_spec_sound : forall f r, filter_matches f r = true -> filter_spec f r.
+Proof.
+  intros f r H. apply filter_matches_meaning in H.
+  destruct H as [H1 [H2 [H3 [H4 [H5 [H6 [A1 [A2 [A3 [B1 [B2 [B3 [C1 [C2 [C3 [D1 [D2 D3]]]]]]]]]]]]]]]]].
+  unfold filter_spec.
+  assert (E1 : forall bx, f_bb f = Some bx ->
+                 box_holds bx (r_olat r) (r_olon r) \/ box_holds bx (r_dlat r) (r_dlon r)).
+  { intros bx Hb. specialize (D1 bx Hb). unfold box_holds. rewrite !in_box_spec in D1. exact D1. }
+  assert (E2 : forall bx, f_bb f = None -> f_obb f = Some bx -> box_holds bx (r_olat r) (r_olon r)).
+  { intros bx Hn Hb. unfold box_holds. apply in_box_spec. apply D2; assumption. }
+  assert (E3 : forall bx, f_bb f = None -> f_dbb f = Some bx -> box_holds bx (r_dlat r) (r_dlon r)).
+  { intros bx Hn Hb. unfold box_holds. apply in_box_spec. apply D3; assumption. }
+  repeat (split; [assumption|]). assumption.
+Qed.
+
+Lemma filter_spec_complete : forall f r, filter_spec f r -> filter_matches f r = true.
+Proof.
+  intros f r H. unfold filter_spec in H.
+  destruct H as [H1 [H2 [H3 [H4 [H5 [H6 [A1 [A2 [A3 [B1 [B2 [B3 [C1 [C2 [C3 [D1 [D2 D3]]]]]]]]]]]]]]]]].
+  unfold filter_matches. repeat rewrite andb_true_iff. repeat split.
+  - destruct (f_mindist f) as [m|]; simpl; [apply Z.leb_le; apply H1; reflexivity | reflexivity].
+  - destruct (f_maxdist f) as [m|]; simpl; [apply Z.leb_le; apply H2; reflexivity | reflexivity].
+  - destruct (f_minseat f) as [m|]; simpl; [apply Z.leb_le; apply H3; reflexivity | reflexivity].
+  - destruct (f_maxseat f) as [m|]; simpl; [apply Z.leb_le; apply H4; reflexivity | reflexivity].
+  - destruct (f_service f) as [[|x l]|]; cbn [list_cond]; try reflexivity.
+    apply mem_In. apply (H5 (x :: l)); [reflexivity | discriminate].
+  - destruct (f_actype f) as [[|x l]|]; cbn [list_cond]; try reflexivity.
+    apply mem_In. apply (H6 (x :: l)); [reflexivity | discriminate].
+  - unfold spatial_match. destruct (f_ap f) as [l|].
+    + apply orb_true_iff. rewrite !mem_In. apply A1; reflexivity.
+    + apply andb_true_iff. split.
+      * destruct (f_oap f) as [l|]; cbn [opt_ok]; [apply mem_In; apply A2; reflexivity | reflexivity].
+      * destruct (f_dap f) as [l|]; cbn [opt_ok]; [apply mem_In; apply A3; reflexivity | reflexivity].
+  - unfold spatial_match. destruct (f_ctry f) as [l|].
+    + apply orb_true_iff. rewrite !mem_In. apply B1; reflexivity.
+    + apply andb_true_iff. split.
+      * destruct (f_octry f) as [l|]; cbn [opt_ok]; [apply mem_In; apply B2; reflexivity | reflexivity].
+      * destruct (f_dctry f) as [l|]; cbn [opt_ok]; [apply mem_In; apply B3; reflexivity | reflexivity].
+  - unfold spatial_match. destruct (f_cont f) as [l|].
+    + apply orb_true_iff. rewrite !mem_In. apply C1; reflexivity.
+    + apply andb_true_iff. split.
+      * destruct (f_ocont f) as [l|]; cbn [opt_ok]; [apply mem_In; apply C2; reflexivity | reflexivity].
+      * destruct (f_dcont f) as [l|]; cbn [opt_ok]; [apply mem_In; apply C3; reflexivity | reflexivity].
+  - unfold spatial_match. destruct (f_bb f) as [b|].
+    + apply orb_true_iff. rewrite !in_box_spec. apply D1; reflexivity.
+    + apply andb_true_iff. split.
+      * destruct (f_obb f) as [b|]; cbn [opt_ok]; [apply in_box_spec; apply D2; reflexivity | reflexivity].
+      * destruct (f_dbb f) as [b|]; cbn [opt_ok]; [apply in_box_spec; apply D3; reflexivity | reflexivity].
+Qed.
+
+(* the executable filter decides exactly the specified one *)
+Lemma filter_matches_iff_spec : forall f r, filter_matches f r = true <-> filter_spec f r.
+Proof. intros f r. split; [apply filter_spec_sound | apply filter_spec_complete]. Qed.
+
+(* ------------------------------------------------------------------------- *)
 (* meaning of one build of a valid, unsampled query                           *)
 (* ------------------------------------------------------------------------- *)
 
@@ -171,7 +324,7 @@ Definition nth_base (db : list row) (q : query) : Z :=
   match q_start q with Some c => civil_day c | None => min_day db end.
 
 Definition matches_spec (db : list row) (q : query) (r : row) : Prop :=
-  (forall f, q_filter q = Some f -> filter_matches f r = true)
+  (forall f, q_filter q = Some f -> filter_spec f r)
   /\ (forall c, q_start q = Some c -> civil_day c <= r_dep r / 86400)
   /\ (forall c, q_end q = Some c -> r_dep r / 86400 <= civil_day c)
   /\ (forall n, q_nth q = Some n -> 1 < n -> (n | r_day r - nth_base db q)).
@@ -280,7 +433,7 @@ Proof.
   destruct (filter_part eo (q_filter q)) as [fc|e] eqn:Ef; [|discriminate].
   inversion Hc; subst cs; clear Hc.
   rewrite forallb_app_cond, forallb_app_cond, !andb_true_iff, date_part_spec, nth_part_spec.
-  assert (Hf : eval_conds coin db 0 fc r = true <-> (forall f, q_filter q = Some f -> filter_matches f r = true)).
+  assert (Hf0 : eval_conds coin db 0 fc r = true <-> (forall f, q_filter q = Some f -> filter_matches f r = true)).
   { unfold filter_part in Ef. destruct (q_filter q) as [f|].
     - destruct (negb (filter_legal f)); [discriminate|].
       destruct (n_conditions f =? 0) eqn:En.
@@ -291,6 +444,8 @@ Proof.
       + inversion Ef; subst. simpl. rewrite andb_true_r.
         split; [intros H f' Hf'; inversion Hf'; subst; exact H | intros H; apply H; reflexivity].
     - inversion Ef; subst. simpl. split; [intros _ f' Hf'; discriminate | reflexivity]. }
+  assert (Hf : eval_conds coin db 0 fc r = true <-> (forall f, q_filter q = Some f -> filter_spec f r)).
+  { rewrite Hf0. split; intros H f Hq; apply filter_matches_iff_spec; apply H; exact Hq. }
   rewrite Hf. tauto.
 Qed.
 
@@ -675,60 +830,50 @@ Proof.
 Qed.
 
 (* ------------------------------------------------------------------------- *)
-(* meaning of the filter's conjuncts                                          *)
+(* direction independence, connected to the stored key                        *)
 (* ------------------------------------------------------------------------- *)
 
-Lemma mem_In : forall s l, mem s l = true <-> In s l.
+(* well-formedness of a database row: the stored route key is the direction-independent key of its two
+   airports (what the importer writes: min + max of the codes; checked on every database by the harness) *)
+Definition wf_row (r : row) : Prop := r_od r = od_key (r_oap r) (r_dap r).
+
+Lemma reverse_routes_same_key : forall r1 r2, wf_row r1 -> wf_row r2 ->
+  r_oap r1 = r_dap r2 -> r_dap r1 = r_oap r2 -> r_od r1 = r_od r2.
+Proof. intros r1 r2 H1 H2 Ha Hb. unfold wf_row in *. rewrite H1, H2, Ha, Hb. apply od_key_sym. Qed.
+
+Lemma occurrences_two : forall k rows r1 r2, In r1 rows -> In r2 rows -> r_sid r1 <> r_sid r2 ->
+  r_od r1 = k -> r_od r2 = k -> 2 <= occurrences k rows.
 Proof.
-  intros s l. unfold mem. rewrite existsb_exists. split.
-  - intros [x [Hx He]]. apply String.eqb_eq in He. subst. exact Hx.
-  - intros H. exists s. split; [exact H | apply String.eqb_refl].
+  intros k rows. induction rows as [|x t IH]; intros r1 r2 H1 H2 Hne E1 E2; [destruct H1|].
+  simpl. pose proof (occurrences_nonneg k t) as Hn.
+  destruct H1 as [->|H1]; destruct H2 as [->|H2].
+  - congruence.
+  - rewrite E1, String.eqb_refl. assert (1 <= occurrences k t) by (apply occurrences_pos; exists r2; auto). lia.
+  - rewrite E2, String.eqb_refl. assert (1 <= occurrences k t) by (apply occurrences_pos; exists r1; auto). lia.
+  - specialize (IH r1 r2 H1 H2 Hne E1 E2). destruct (String.eqb k (r_od x)); lia.
 Qed.
 
-Lemma filter_matches_meaning : forall f r, filter_matches f r = true ->
-  (forall m, f_mindist f = Some m -> m <= r_dist r) /\ (forall m, f_maxdist f = Some m -> r_dist r <= m)
-  /\ (forall m, f_minseat f = Some m -> m <= r_seats r) /\ (forall m, f_maxseat f = Some m -> r_seats r <= m)
-  /\ (forall l, f_service f = Some l -> l <> [] -> In (r_service r) l)
-  /\ (forall l, f_actype f = Some l -> l <> [] -> In (r_actype r) l)
-  /\ (forall l, f_ap f = Some l -> In (r_oap r) l \/ In (r_dap r) l)
-  /\ (forall l, f_ap f = None -> f_oap f = Some l -> In (r_oap r) l)
-  /\ (forall l, f_ap f = None -> f_dap f = Some l -> In (r_dap r) l)
-  /\ (forall l, f_ctry f = Some l -> In (r_octry r) l \/ In (r_dctry r) l)
-  /\ (forall l, f_ctry f = None -> f_octry f = Some l -> In (r_octry r) l)
-  /\ (forall l, f_ctry f = None -> f_dctry f = Some l -> In (r_dctry r) l)
-  /\ (forall l, f_cont f = Some l -> In (r_ocont r) l \/ In (r_dcont r) l)
-  /\ (forall l, f_cont f = None -> f_ocont f = Some l -> In (r_ocont r) l)
-  /\ (forall l, f_cont f = None -> f_dcont f = Some l -> In (r_dcont r) l)
-  /\ (forall b, f_bb f = Some b -> in_box b (r_olat r) (r_olon r) = true \/ in_box b (r_dlat r) (r_dlon r) = true)
-  /\ (forall b, f_bb f = None -> f_obb f = Some b -> in_box b (r_olat r) (r_olon r) = true)
-  /\ (forall b, f_bb f = None -> f_dbb f = Some b -> in_box b (r_dlat r) (r_dlon r) = true).
+(* both directions of a route are tallied together: one entry, under the common key, counting both *)
+Lemma both_directions_tallied_together : forall coin db limit cs r1 r2,
+  let rows := selected coin db cs in
+  In r1 rows -> In r2 rows -> wf_row r1 -> wf_row r2 ->
+  r_oap r1 = r_dap r2 -> r_dap r1 = r_oap r2 -> r_sid r1 <> r_sid r2 ->
+  let key := od_key (r_oap r1) (r_dap r1) in
+  r_od r1 = key /\ r_od r2 = key
+  /\ In (key, occurrences key rows) (sort_desc (tally rows))
+  /\ 2 <= occurrences key rows
+  /\ (forall c, In (key, c) (exec_frequent coin db limit cs) -> c = occurrences key rows).
 Proof.
-  intros f r H. unfold filter_matches in H. repeat rewrite andb_true_iff in H.
-  destruct H as [[[[[[[[[H1 H2] H3] H4] H5] H6] H7] H8] H9] H10].
-  repeat split.
-  - intros m Hm. rewrite Hm in H1. simpl in H1. lia.
-  - intros m Hm. rewrite Hm in H2. simpl in H2. lia.
-  - intros m Hm. rewrite Hm in H3. simpl in H3. lia.
-  - intros m Hm. rewrite Hm in H4. simpl in H4. lia.
-  - intros l Hl Hne. rewrite Hl in H5. destruct l; [congruence|]. simpl list_cond in H5. apply mem_In. exact H5.
-  - intros l Hl Hne. rewrite Hl in H6. destruct l; [congruence|]. simpl list_cond in H6. apply mem_In. exact H6.
-  - intros l Hl. rewrite Hl in H7. simpl in H7. apply orb_true_iff in H7. rewrite !mem_In in H7. exact H7.
-  - intros l Hn Hl. rewrite Hn, Hl in H7. simpl in H7. apply andb_true_iff in H7. apply mem_In. tauto.
-  - intros l Hn Hl. rewrite Hn, Hl in H7. simpl in H7. apply andb_true_iff in H7. apply mem_In. tauto.
-  - intros l Hl. rewrite Hl in H8. simpl in H8. apply orb_true_iff in H8. rewrite !mem_In in H8. exact H8.
-  - intros l Hn Hl. rewrite Hn, Hl in H8. simpl in H8. apply andb_true_iff in H8. apply mem_In. tauto.
-  - intros l Hn Hl. rewrite Hn, Hl in H8. simpl in H8. apply andb_true_iff in H8. apply mem_In. tauto.
-  - intros l Hl. rewrite Hl in H9. simpl in H9. apply orb_true_iff in H9. rewrite !mem_In in H9. exact H9.
-  - intros l Hn Hl. rewrite Hn, Hl in H9. simpl in H9. apply andb_true_iff in H9. apply mem_In. tauto.
-  - intros l Hn Hl. rewrite Hn, Hl in H9. simpl in H9. apply andb_true_iff in H9. apply mem_In. tauto.
-  - intros b Hb. rewrite Hb in H10. simpl in H10. apply orb_true_iff in H10. exact H10.
-  - intros b Hn Hb. rewrite Hn, Hb in H10. simpl in H10. apply andb_true_iff in H10. tauto.
-  - intros b Hn Hb. rewrite Hn, Hb in H10. simpl in H10. apply andb_true_iff in H10. tauto.
+  intros coin db limit cs r1 r2 rows H1 H2 W1 W2 Ha Hb Hne key.
+  assert (E1 : r_od r1 = key) by exact W1.
+  assert (E2 : r_od r2 = key) by (rewrite <- (reverse_routes_same_key r1 r2 W1 W2 Ha Hb); exact W1).
+  destruct (frequent_spec coin db limit cs) as [Hc [_ [_ [_ [_ Hall]]]]]. fold rows in Hc, Hall.
+  split; [exact E1|]. split; [exact E2|]. split.
+  - specialize (Hall r1 H1). rewrite E1 in Hall. exact Hall.
+  - split; [apply (occurrences_two key rows r1 r2); assumption|].
+    intros c Hin. apply (Hc key c Hin).
 Qed.
 
-Lemma in_box_spec : forall b lat lon,
-  in_box b lat lon = true <-> (b_minlat b <= lat <= b_maxlat b /\ b_minlon b <= lon <= b_maxlon b).
-Proof. intros b lat lon. unfold in_box. rewrite !andb_true_iff, !Z.leb_le. lia. Qed.
 
 (* ------------------------------------------------------------------------- *)
 (* witnesses                                                                  *)
